@@ -137,26 +137,39 @@ QB(S, b) ==
                       NODEFER callbacks are told at once.
    cblog collects the reports of the current call: [b, cb, o, a, d]. *)
 NCB == 2
-InitCb == [on |-> FALSE, en |-> FALSE, nd |-> FALSE]
+(* sc / left: the callback's script: what it does to ITS OWN buffer when it is invoked ("drainall": evbuffer_drain
+   of everything, "adda": evbuffer_add of one symbol a), at most `left` more times *)
+InitCb == [on |-> FALSE, en |-> FALSE, nd |-> FALSE, sc |-> "none", left |-> 0]
 AnyCb(S, b) == \E k \in 1..NCB : S.cb[b][k].on
 (* slots listed in invocation order: LIST_INSERT_HEAD => most recently added first *)
 CbOrder(S, b) == S.cbo[b]
+Sched(S, b) == IF \E i \in 1..Len(S.pq) : S.pq[i] = b THEN S ELSE [S EXCEPT !.pq = Append(@, b)]
 
-RECURSIVE Reports(_, _, _, _, _)
-Reports(S, b, order, info, deferredRun) ==
-  IF order = <<>> THEN <<>>
+(* evbuffer_run_callbacks: the accumulators were cleared BEFORE this loop, so a change a callback makes to the
+   buffer from inside is accounted and reported on its own (nested evbuffer_invoke_callbacks_): at once with
+   immediate delivery, by a further deferred run with deferred delivery.  kind: "imm" | "nodefer" | "deferred" *)
+RECURSIVE RunCbs(_, _, _, _, _), Changed(_, _, _, _)
+RunCbs(S, b, order, info, kind) ==
+  IF order = <<>> THEN S
   ELSE LET k == Head(order)
            c == S.cb[b][k]
-           want == IF deferredRun THEN c.en /\ ~c.nd
-                   ELSE IF CbMode = 2 THEN c.en /\ c.nd
-                   ELSE c.en
-       IN (IF c.on /\ want THEN <<[b |-> b, cb |-> k, o |-> info[1], a |-> info[2], d |-> info[3]]>> ELSE <<>>)
-          \o Reports(S, b, Tail(order), info, deferredRun)
+           want == CASE kind = "deferred" -> c.en /\ ~c.nd
+                     [] kind = "nodefer" -> c.en /\ c.nd
+                     [] OTHER -> c.en
+       IN IF ~(c.on /\ want) THEN RunCbs(S, b, Tail(order), info, kind)
+          ELSE LET S1 == [S EXCEPT !.cblog = Append(@, [b |-> b, cb |-> k, o |-> info[1], a |-> info[2], d |-> info[3]])]
+                   S2 == IF c.sc = "none" \/ c.left = 0 THEN S1
+                         ELSE LET T == [S1 EXCEPT !.cb[b][k].left = @ - 1] IN
+                              IF c.sc = "drainall"
+                              THEN (IF T.buf[b] = <<>> \/ T.fs[b] THEN T
+                                    ELSE Changed([T EXCEPT !.buf[b] = <<>>, !.tag[b] = <<>>, !.sp[b] = FALSE], b, 0, Bytes(T.buf[b])))
+                              ELSE (IF T.fe[b] THEN T
+                                    ELSE Changed([T EXCEPT !.buf[b] = @ \o <<"a">>, !.tag[b] = @ \o <<0>>], b, WA, 0))
+               IN RunCbs(S2, b, Tail(order), info, kind)
 
 (* evbuffer_invoke_callbacks_ after buffer b changed by (add, del); it is also called
    by some operations when nothing changed (add of 0 bytes, drain(0) ...), which in
    deferred mode still schedules the deferred run (matters for the order of runs). *)
-Sched(S, b) == IF \E i \in 1..Len(S.pq) : S.pq[i] = b THEN S ELSE [S EXCEPT !.pq = Append(@, b)]
 Changed(S0, b, add, del) ==
   LET S == [S0 EXCEPT !.led[b] = @ + add - del] IN     \* ghost ledger: what the accounting believes the length is
   IF CbMode = 0 THEN S
@@ -166,13 +179,12 @@ Changed(S0, b, add, del) ==
            len == Bytes(S.buf[b])
        IN IF CbMode = 1
           THEN (IF a1 = 0 /\ d1 = 0 THEN S
-                ELSE [S EXCEPT !.acc[b] = <<0, 0>>,
-                               !.cblog = @ \o Reports(S, b, CbOrder(S, b), <<len + d1 - a1, a1, d1>>, FALSE)])
+                ELSE RunCbs([S EXCEPT !.acc[b] = <<0, 0>>], b, CbOrder(S, b), <<len + d1 - a1, a1, d1>>, "imm"))
           ELSE \* deferred: accumulate and schedule; NODEFER callbacks are invoked now.  C13 requires that
                \* no change is reported twice, so a NODEFER callback is told the change of this call only.
-               [Sched(S, b) EXCEPT !.acc[b] = <<a1, d1>>,
-                                   !.cblog = @ \o (IF add = 0 /\ del = 0 THEN <<>>
-                                                   ELSE Reports(S, b, CbOrder(S, b), <<len + del - add, add, del>>, FALSE))]
+               LET S1 == [Sched(S, b) EXCEPT !.acc[b] = <<a1, d1>>]
+               IN IF add = 0 /\ del = 0 THEN S1
+                  ELSE RunCbs(S1, b, CbOrder(S, b), <<len + del - add, add, del>>, "nodefer")
 
 ----------------------------------------------------------------------------
 InitSt ==
@@ -202,7 +214,10 @@ ZT(d) == [i \in 1..Len(d) |-> 0]
 AppendT(S, b, d, tg) == Changed([SetBuf(S, b, S.buf[b] \o d) EXCEPT !.tag[b] = @ \o tg], b, Bytes(d), 0)
 Append_(S, b, d) == AppendT(S, b, d, ZT(d))
 Prepend_(S, b, d) == Changed([SetBuf(S, b, d \o S.buf[b]) EXCEPT !.tag[b] = ZT(d) \o @], b, Bytes(d), 0)
-DropFront(S, b, k) == Changed([SetBuf(S, b, Drop(S.buf[b], k)) EXCEPT !.tag[b] = Drop(@, k)], b, 0, BP(S.buf[b], k))
+DropFront(S, b, k0) ==       \* evbuffer_drain semantics: at most what is there; nothing (not even a notification) on an empty buffer
+  LET k == Min(k0, Len(S.buf[b])) IN
+  IF S.buf[b] = <<>> THEN S
+  ELSE Changed([SetBuf(S, b, Drop(S.buf[b], k)) EXCEPT !.tag[b] = Drop(@, k)], b, 0, BP(S.buf[b], k))
 (* a new id (reference, segment or multicast copy) *)
 NewId(S, parent) == [S EXCEPT !.nid = @ + 1, !.par = Append(@, parent)]
 (* a chain cut by a partial remove_buffer / pullup: the part that was copied is plain memory now *)
@@ -282,6 +297,9 @@ ApplyOp(S, op) ==
          IN \* the segment's cleanup is owed in both cases: on failure the library drops the last reference at once
             IF S.fe[b] \/ op.off > fl \/ op.off + ln > fl THEN R(S2, -1)
             ELSE R([AppendT(S2, b, SubSeq(op.d, op.off + 1, op.off + ln), [i \in 1..ln |-> S2.nid]) EXCEPT !.sp[b] = TRUE], 0)
+    [] op.a = "addfilebad" ->         \* a segment whose lazy materialisation fails inside add_file_segment: nothing is added,
+         LET S1 == NewId(S, 0)        \* the segment's cleanup is owed at once (the library drops the caller's reference)
+         IN R([S1 EXCEPT !.own = @ \cup {S1.nid}, !.seg = @ \cup {S1.nid}], -1)
     [] op.a = "drain" ->
          IF s = <<>> THEN R(S, 0)
          ELSE IF S.fs[b] THEN R(S, -1)
@@ -347,7 +365,9 @@ ApplyOp(S, op) ==
             ELSE RX(S, BP(fl, m), [w |-> Str(Take(fl, m)), rest |-> Bytes(fl) - BP(fl, m)])
     (* ---- callbacks (C13) *)
     [] op.a = "cbadd" ->
-         R([S EXCEPT !.cb[b][op.k] = [on |-> TRUE, en |-> TRUE, nd |-> FALSE], !.cbo[b] = <<op.k>> \o @], 0)
+         R([S EXCEPT !.cb[b][op.k] = [InitCb EXCEPT !.on = TRUE, !.en = TRUE], !.cbo[b] = <<op.k>> \o @], 0)
+    [] op.a = "cbscript" ->           \* arm the callback's script for one more invocation
+         R([S EXCEPT !.cb[b][op.k].sc = op.sc, !.cb[b][op.k].left = 1], 0)
     [] op.a = "cbdel" ->
          R([S EXCEPT !.cb[b][op.k] = InitCb, !.cbo[b] = SelectSeq(@, LAMBDA x : x # op.k)], 0)
     [] op.a = "cbflag" ->             \* op.f: 1 ENABLED 2 NODEFER; op.v: 1 set 0 clear
@@ -364,8 +384,7 @@ ApplyOp(S, op) ==
                         T1 == [T EXCEPT !.pq = Tail(@)]
                     IN IF ~AnyCb(T, bb) THEN Run([T1 EXCEPT !.acc[bb] = <<0, 0>>])
                        ELSE IF a1 = 0 /\ d1 = 0 THEN Run(T1)
-                       ELSE Run([T1 EXCEPT !.acc[bb] = <<0, 0>>,
-                                           !.cblog = @ \o Reports(T, bb, CbOrder(T, bb), <<len + d1 - a1, a1, d1>>, TRUE)])
+                       ELSE Run(RunCbs([T1 EXCEPT !.acc[bb] = <<0, 0>>], bb, CbOrder(T, bb), <<len + d1 - a1, a1, d1>>, "deferred"))
          IN R(Run(S), 0)
     [] OTHER -> R(S, -99)
 
@@ -394,6 +413,7 @@ OpsOf(S, fam) ==
                               lb |-> IF ln < 0 THEN -1 ELSE IF off + ln <= Len(FileData) THEN Bytes(SubSeq(FileData, off + 1, off + ln))
                                      ELSE Bytes(FileData) + 3] :
                              b \in Bufs, off \in {0, 1, 5}, ln \in {-1, 0, 2, 4}, m \in {0, 1}}
+    [] fam = "addfilebad" -> {[a |-> "addfilebad", b |-> b, d |-> FileData, m |-> m] : b \in Bufs, m \in 0..3}
     [] fam = "drain" -> UNION {{[a |-> "drain", b |-> b, n |-> n, nb |-> NB_(S.buf[b], n)] : n \in NChoices(S.buf[b])} : b \in Bufs}
     [] fam = "remove" -> UNION {{[a |-> "remove", b |-> b, n |-> n, nb |-> NB_(S.buf[b], n)] : n \in NChoices(S.buf[b])} : b \in Bufs}
     [] fam = "copyout" -> UNION {{[a |-> "copyout", b |-> b, n |-> n, nb |-> NB_(S.buf[b], n)] : n \in NChoices(S.buf[b])} : b \in Bufs}
@@ -419,6 +439,8 @@ OpsOf(S, fam) ==
     [] fam = "cbdel" -> UNION {{[a |-> "cbdel", b |-> b, k |-> k] : k \in {x \in 1..NCB : S.cb[b][x].on}} : b \in Bufs}
     [] fam = "cbflag" -> UNION {{[a |-> "cbflag", b |-> b, k |-> k, f |-> f, v |-> v] :
                                    k \in {x \in 1..NCB : S.cb[b][x].on}, f \in {1, 2}, v \in {0, 1}} : b \in Bufs}
+    [] fam = "cbscript" -> UNION {{[a |-> "cbscript", b |-> b, k |-> k, sc |-> sc] :
+                                     k \in {x \in 1..NCB : S.cb[b][x].on}, sc \in {"drainall", "adda"}} : b \in Bufs}
     [] fam = "loop" -> {[a |-> "loop", b |-> 1]}
     [] OTHER -> {}
 
@@ -465,6 +487,11 @@ OpSane(S, op) ==
   /\ (op.a = "cbflag" => (IF op.f = 1 THEN S.cb[op.b][op.k].en ELSE S.cb[op.b][op.k].nd) # (op.v = 1))
   /\ (op.a = "cbflag" /\ op.f = 2 => "nodefer" \in Acts)
   /\ (op.a = "loop" => CbMode = 2)
+  \* a scripted callback must be the last one invoked: callbacks after it would be handed the outer report although
+  \* the buffer has changed meanwhile (that is what the code does; the property leaves it open)
+  /\ (op.a = "cbscript" => op.k = S.cbo[op.b][Len(S.cbo[op.b])] /\ ~S.cb[op.b][op.k].nd
+                             /\ (S.cb[op.b][op.k].sc # op.sc \/ S.cb[op.b][op.k].left = 0))
+  /\ (op.a = "cbflag" /\ op.f = 2 => S.cb[op.b][op.k].sc = "none")
 
 AllTags(S) == UNION {{S.tag[b][i] : i \in 1..Len(S.tag[b])} : b \in Bufs}
 Live(S, x) == x \in AllTags(S) \/ \E c \in AllTags(S) \ {0} : S.par[c] = x
@@ -519,6 +546,7 @@ PrependBuf == Do("prependbuf")
 RmBuf == Do("rmbuf")
 AddBufRef == Do("addbufref")
 AddFile == Do("addfile")
+AddFileBad == Do("addfilebad")
 Drain == Do("drain")
 Remove == Do("remove")
 Copyout == Do("copyout")
@@ -530,6 +558,7 @@ Unfreeze == Do("unfreeze")
 CbAdd == Do("cbadd")
 CbDel == Do("cbdel")
 CbFlag == Do("cbflag")
+CbScript == Do("cbscript")
 Loop == Do("loop")
 EvRead == Do("evread")
 EvWrite == Do("evwrite")
@@ -537,14 +566,14 @@ SfWrite == Do("sfwrite")
 
 Init == st = InitSt /\ hist = <<>> /\ pend = NoOp
 Next == Add \/ AddRef \/ Prepend \/ Printf \/ AddIov \/ ResCommit \/ AddBuf \/ PrependBuf \/ RmBuf
-        \/ AddBufRef \/ AddFile \/ Drain \/ Remove \/ Copyout \/ Pullup \/ Expand \/ Readln
-        \/ Freeze \/ Unfreeze \/ CbAdd \/ CbDel \/ CbFlag \/ Loop \/ EvRead \/ EvWrite \/ SfWrite \/ Apply
+        \/ AddBufRef \/ AddFile \/ AddFileBad \/ Drain \/ Remove \/ Copyout \/ Pullup \/ Expand \/ Readln
+        \/ Freeze \/ Unfreeze \/ CbAdd \/ CbDel \/ CbFlag \/ CbScript \/ Loop \/ EvRead \/ EvWrite \/ SfWrite \/ Apply
 Spec == Init /\ [][Next]_vars
 
 ----------------------------------------------------------------------------
 (* Properties decided by TLC on the model *)
 Syms == {"a", "b", "C", "L", "N"}
-TypeOK == \A b \in Bufs : Len(st.buf[b]) <= MaxLen /\ \A i \in 1..Len(st.buf[b]) : st.buf[b][i] \in Syms
+TypeOK == \A b \in Bufs : Len(st.buf[b]) <= MaxLen + 4 /\ \A i \in 1..Len(st.buf[b]) : st.buf[b][i] \in Syms
 
 (* C12: every search result is a real match and no earlier match exists; eol results split at a terminator *)
 SearchSound ==
@@ -564,16 +593,17 @@ TotalBytes(S) == Bytes(S.buf[1]) + Bytes(S.buf[2])
 Nxt == LET x == StepR(st, pend) IN [s |-> x.s, o |-> x.r]          \* only meaningful when pend # NoOp
 
 (* C12/C14: moves conserve the concatenation of both buffers *)
-MovesConserve == (pend # NoOp /\ pend.a \in {"addbuf", "prependbuf", "rmbuf"}) => TotalBytes(Nxt.s) = TotalBytes(st)
+NoScripts == \A b \in Bufs : \A k \in 1..NCB : st.cb[b][k].left = 0     \* no callback will modify a buffer from inside
+MovesConserve == (pend # NoOp /\ NoScripts /\ pend.a \in {"addbuf", "prependbuf", "rmbuf"}) => TotalBytes(Nxt.s) = TotalBytes(st)
 (* C12/C14: a failed call (r = -1) changes nothing and reports nothing *)
 FailureUnchanged ==
   (pend # NoOp /\ Nxt.o.r = -1)
     => ((pend.a = "evread" \/ Nxt.s.fdin = st.fdin) /\ Nxt.s.buf = st.buf /\ Nxt.s.fs = st.fs /\ Nxt.s.fe = st.fe /\ Nxt.s.cb = st.cb /\ Nxt.s.acc = st.acc /\ Nxt.s.cblog = <<>>)
 (* C12: a returned count is the number of bytes that really moved *)
 CountsExact ==
-  /\ ((pend # NoOp /\ pend.a \in {"remove", "rmbuf", "evwrite"} /\ Nxt.o.r >= 0) => Bytes(st.buf[pend.b]) - Bytes(Nxt.s.buf[pend.b]) = Nxt.o.r)
+  /\ ((pend # NoOp /\ NoScripts /\ pend.a \in {"remove", "rmbuf", "evwrite"} /\ Nxt.o.r >= 0) => Bytes(st.buf[pend.b]) - Bytes(Nxt.s.buf[pend.b]) = Nxt.o.r)
   \* C16: evbuffer_read appends exactly what left the socket; write_atmost never removes more than requested
-  /\ ((pend # NoOp /\ pend.a = "evread" /\ Nxt.o.r >= 0)
+  /\ ((pend # NoOp /\ NoScripts /\ pend.a = "evread" /\ Nxt.o.r >= 0)
         => /\ Bytes(Nxt.s.buf[pend.b]) - Bytes(st.buf[pend.b]) = Nxt.o.r
            /\ Bytes(st.fdin \o pend.d) - Bytes(Nxt.s.fdin) = Nxt.o.r
            /\ Nxt.s.buf[pend.b] \o Nxt.s.fdin = st.buf[pend.b] \o st.fdin \o pend.d)
